@@ -182,7 +182,7 @@ def grammar_part(prog, R):
         conds = sorted(set(show(c[1]) for p in ps for c in p.conds if c[0] == "switch"))
         unguarded = ["Ne(BitAnd(self.0, Shl(1, (discr(kind) as usize))), 0)"]
         ok = shapes == unguarded and not conds
-        guarded = all("Lt(" in c and "128" in c for c in conds) and conds and all(s in ("0", unguarded[0]) for s in shapes)
+        guarded = all("Lt(" in c and "128" in c for c in conds) and conds and all(s in ("0", "false", unguarded[0]) for s in shapes)
         R.ob("C01.4-contains-model-conformance", "TokenSet::contains", ok or guarded, tsc.at, f"body shape {shapes} under {conds}; modelled as bit test of the const set" + (" guarded by kind < 128" if guarded else ""))
         R.info["contains_guarded"] = bool(guarded)
     else:
